@@ -4,11 +4,12 @@ use crate::support::*;
 use educe::Educe;
 use core::cmp::Ordering;
 #[derive(Educe)]
-#[educe(Eq, PartialOrd, Ord, PartialEq)]
-pub struct T(#[educe(PartialOrd(rank = 8i64))] A<0>, #[educe(PartialOrd(method = "m_cmp", rank(-1)))] A<0>);
+#[repr(i32)]
+#[educe(Ord, PartialEq, PartialOrd, Eq)]
+pub enum T { V1(#[educe(PartialOrd(rank = 2))] A<0>) = 1, Some(#[educe(PartialOrd = false)] A<0>) }
 
-pub fn values() -> Vec<T> { vec![T(A(0), A(0)), T(A(0), A(1)), T(A(0), A(7)), T(A(1), A(0)), T(A(1), A(1)), T(A(1), A(7)), T(A(7), A(0)), T(A(7), A(1)), T(A(7), A(7))] }
-pub fn show(x: &T) -> String { #[allow(unused_variables)] match x { T(p0, p1) => format!("T({},{})", sv(p0), sv(p1)) } }
-pub fn o_disc(x: &T) -> i128 { match x { T(_, _) => 0 } }
-pub fn o_cmp(a: &T, b: &T) -> Ordering { match (a, b) { (T(a0, a1), T(b0, b1)) => { let c = m_cmp(a1, b1); if c != Ordering::Equal { return c; } let c = ::core::cmp::Ord::cmp(a0, b0); if c != Ordering::Equal { return c; } Ordering::Equal } } }
+pub fn values() -> Vec<T> { vec![T::V1(A(0)), T::V1(A(1)), T::V1(A(7)), T::Some(A(0)), T::Some(A(1)), T::Some(A(7))] }
+pub fn show(x: &T) -> String { #[allow(unused_variables)] match x { T::V1(p0) => format!("V1({})", sv(p0)), T::Some(p0) => format!("Some({})", sv(p0)) } }
+pub fn o_disc(x: &T) -> i128 { match x { T::V1(_) => 1, T::Some(_) => 2 } }
+pub fn o_cmp(a: &T, b: &T) -> Ordering { match (a, b) { (T::V1(a0), T::V1(b0)) => { let c = ::core::cmp::Ord::cmp(a0, b0); if c != Ordering::Equal { return c; } Ordering::Equal }, (T::Some(a0), T::Some(b0)) => {  Ordering::Equal }, _ => o_disc(a).cmp(&o_disc(b)) } }
 pub fn run(out: &mut Out) { let vs = values(); for (i, a) in vs.iter().enumerate() { for (j, b) in vs.iter().enumerate() { let e = o_cmp(a, b); let g = ::core::cmp::Ord::cmp(a, b); out.check(g == e, "ord_11", "cmp", || format!("cmp({}, {}) = {:?} expected {:?}", show(a), show(b), g, e)); let g2 = ::core::cmp::PartialOrd::partial_cmp(a, b); out.check(g2 == Some(e), "ord_11", "partial_is_some_cmp", || format!("partial_cmp({}, {}) = {:?} expected Some({:?})", show(a), show(b), g2, e)); } } }
